@@ -107,6 +107,10 @@ structure Machine (σ α β : Type) where
   tick : σ → σ := id
   /-- … and at the end of the run -/
   finish : σ → σ := id
+  /-- what the operator's teardown does besides unsubscribing the sources, when it runs because the
+      downstream unsubscribed from outside (GroupBy completes its groups); notifications refused by
+      inner subjects on that occasion -/
+  teardown : σ → σ × List (Ev α) := fun s => (s, [])
 
 inductive Dropped (α β : Type)
   | up (i : Nat) (x : Ev α)   -- refused by the closed subscriber of source `i`
@@ -178,6 +182,21 @@ def runCore (m : Machine σ α β) (rest : Nat → List (Ev α)) (order : List N
 def run (m : Machine σ α β) (scripts : List (List (Ev α))) (order : List Nat) : St σ α β :=
   let s := runCore m (scriptsFn scripts) order
   { s with m := m.finish s.m }
+
+/-- `Unsubscribe()` called from outside on the subscription `Subscribe` returned: the downstream
+    subscriber closes (subscriber.go:259-263) and the operator's teardown runs -/
+def St.cut (m : Machine σ α β) (s : St σ α β) : St σ α β :=
+  if s.downOpen then
+    let s1 : St σ α β := { s with downOpen := false, m := (m.teardown s.m).1, drops := s.drops ++ (m.teardown s.m).2.map .subj }
+    if m.hotTeardown then s1.releaseAll else s1
+  else s
+
+/-- as `run`, with an external `Unsubscribe()` after the first `k` entries of the interleaving
+    (used by the correspondence only: it ties what the teardown releases) -/
+def runCut (m : Machine σ α β) (scripts : List (List (Ev α))) (order : List Nat) (k : Nat) : St σ α β :=
+  let s := (order.take k).foldl (St.feed m) (m.init (scriptsFn scripts))
+  let s' := (order.drop k).foldl (St.feed m) (s.cut m)
+  { s' with m := m.finish s'.m }
 
 /-- The notifications the sources issue, in arrival order, tagged by source (a source says nothing
     after its own terminal). This is the input of every specification. -/
